@@ -496,6 +496,11 @@ func (pe *PolicyEngine) insertAdminNetworkPolicy(anp *apisv1a.AdminNetworkPolicy
 	}
 	pe.adminNetpolsMap[anp.Name] = true
 	pe.sortedAdminNetpols = append(pe.sortedAdminNetpols, (*k8s.AdminNetworkPolicy)(anp))
+	// keep the list ordered by priority also when objects are inserted one by one (InsertObject);
+	// priorities are validated by sortAdminNetpolsByPriority when all objects are loaded
+	sort.SliceStable(pe.sortedAdminNetpols, func(i, j int) bool {
+		return pe.sortedAdminNetpols[i].Spec.Priority < pe.sortedAdminNetpols[j].Spec.Priority
+	})
 	// clear the cache on admin netpols changes
 	pe.cache.clear()
 	return nil
